@@ -65,6 +65,7 @@ class Ctx:
         self.feas_unknown = 0
         self.byte_terms = set()
         self.ufs = set()
+        self.no_fork = 0          # >0 while evaluating invariants / quantifier bodies: and/or/if-expressions build terms
         self.len_terms = {}       # id -> length-like Int term (for small-model preference in counterexamples)
         self.opaque_facts_done = set()
         self.soft = set()         # ids of facts tying z3 sequence lengths to tracked lengths (droppable in proofs)
@@ -170,6 +171,13 @@ class Ctx:
             return True
         if z3.is_false(cond):
             return False
+        if self.no_fork:
+            # inside an invariant / quantifier body only conditions already decided by the path may be branched on
+            if self.check(z3.Not(cond)) == z3.unsat:
+                return True
+            if self.check(cond) == z3.unsat:
+                return False
+            raise Unsupported('path split inside an invariant or quantifier body on %s' % str(cond)[:120])
         if self.pos < len(self.prefix):
             d = self.prefix[self.pos]
             self.pos += 1
